@@ -1,7 +1,10 @@
 use std::future::Future;
 use std::pin::Pin;
 use std::sync::{Arc};
+#[cfg(not(cached_verif))]
 use std::sync::atomic::{AtomicBool, Ordering};
+#[cfg(cached_verif)]
+use shuttle::sync::atomic::{AtomicBool, Ordering};
 use std::task::{Context, Poll, Waker};
 use parking_lot::Mutex;
 use crate::cache::command::{CommandStatus, RejectionReason};
